@@ -132,7 +132,12 @@ class RenderContext:
             obj = self.scope[root]
         except (KeyError, TypeError, IndexError):
             if default == UNDEFINED:
-                hint = f"{root!r} is undefined"
+                try:
+                    hint = f"{root!r} is undefined"
+                except ValueError:
+                    # An integer with more digits than the interpreter will display.
+                    root = f"<{root.__class__.__name__}>"
+                    hint = f"{root} is undefined"
                 return self.env.undefined(root, hint=hint, token=token)
             return default
 
